@@ -21,6 +21,8 @@ VERIF = os.path.dirname(os.path.dirname(os.path.abspath(__file__)))
 _SCRATCH = os.environ.get('PYVC_REPO') not in (None, '', '/repo')
 REPLAY_DIR = os.path.join(VERIF, 'replays') if not _SCRATCH else os.path.join(os.environ['PYVC_REPO'], '_pyvc_replays')
 EVID_DIR = os.path.join(VERIF, 'evidence') if not _SCRATCH else os.path.join(os.environ['PYVC_REPO'], '_pyvc_evidence')
+if os.environ.get('PYVC_EVIDENCE_DIR'):
+    EVID_DIR = os.environ['PYVC_EVIDENCE_DIR']      # runs against a deliberately changed /repo (tools/seedcheck.sh) keep the evidence of the clean tree intact
 VENV_PY = '/venv/bin/python'
 
 
